@@ -360,6 +360,12 @@ class SymbolicExpression(Generic[T], ABC):
     def _invert_(self):
         return Not(self)
 
+    def _forget_evaluation_memory_(self) -> None:
+        """
+        Forget whatever this node remembers from an earlier top-level evaluation of its query. Nothing by default;
+        nodes that keep memory across the results of one evaluation (e.g. conclusion selectors) override this.
+        """
+
     def __enter__(self) -> Self:
         node = self
         if (node is self._root_) or (node._parent_ is self._root_):
@@ -499,6 +505,9 @@ class ResultQuantifier(CanBehaveLikeAVariable[T], ABC):
         This is the exposed evaluation method for users.
         """
         SymbolGraph().remove_dead_instances()
+        # a new top-level evaluation starts from a clean slate: evaluating a (rule) query again gives the same answers
+        for node in self._descendants_:
+            node._forget_evaluation_memory_()
         yield from map(self._process_result_, self._evaluate__())
 
     def _evaluate__(
